@@ -51,6 +51,9 @@ fn profile_for(id: &str, tier: Tier, ctx: &Ctx) -> SProfile {
             p.p_parser_error = 25;
         }
         "C14" => {
+            // `Failed(NotFound)` is what reporters receive behind `FailOnSkipped`
+            p.outcome_w = [55, 12, 14, 6, 6];
+            p.allow_notfound = true;
             p.p_retry = 45;
             p.p_dup_names = 10;
             p.p_pathless = 25;
